@@ -13,6 +13,7 @@ import (
 	"testing"
 	"time"
 
+	"google.golang.org/protobuf/types/known/wrapperspb"
 	"pgregory.net/rapid"
 	"verifharness/kit"
 )
@@ -307,10 +308,13 @@ type C01Repeat struct {
 	WithMD  bool     `json:"with_md"` // calls carry outgoing metadata
 	Timeout bool     `json:"timeout"` // calls carry a (long) deadline
 	Big     bool     `json:"big"`     // 2 KiB payloads instead of a few bytes
+	// ReuseReply: the application keeps one reply object per concurrent slot and passes it to Invoke again in every round
+	// (Invoke must overwrite it); every third call is answered with the empty message
+	ReuseReply bool `json:"reuse_reply,omitempty"`
 }
 
 func genC01Repeat(t *rapid.T) C01Repeat {
-	c := C01Repeat{Topo: genTopo(t, 3), Methods: rapid.IntRange(1, 3).Draw(t, "methods"), WithMD: rapid.IntRange(0, 2).Draw(t, "md") == 0, Timeout: rapid.IntRange(0, 2).Draw(t, "timeout") == 0, Big: rapid.Bool().Draw(t, "big")}
+	c := C01Repeat{Topo: genTopo(t, 3), Methods: rapid.IntRange(1, 3).Draw(t, "methods"), WithMD: rapid.IntRange(0, 2).Draw(t, "md") == 0, Timeout: rapid.IntRange(0, 2).Draw(t, "timeout") == 0, Big: rapid.Bool().Draw(t, "big"), ReuseReply: rapid.IntRange(0, 2).Draw(t, "reuse_reply") == 0}
 	nr := rapid.IntRange(2, 6).Draw(t, "rounds")
 	for r := 0; r < nr; r++ {
 		n := rapid.SampledFrom([]int{1, 1, 2, 4}).Draw(t, "n")
@@ -356,13 +360,21 @@ func execC01Repeat(t *testing.T, c C01Repeat) (v Verdict) {
 					handled[int(req[1])<<8|int(req[2])]++
 					mu.Unlock()
 				}
+				if c.ReuseReply && len(req) >= 3 && (int(req[1])<<8|int(req[2]))%3 == 2 {
+					return nil, nil // the empty message
+				}
 				return append([]byte{byte('A' + m)}, req...), nil
 			})
 		}
 		w := kit.NewWorld(c.Topo, svc, nil, nil)
+		outs := map[int]*wrapperspb.BytesValue{}
 		for _, round := range c.Rounds {
 			var wg sync.WaitGroup
 			for i, m := range round {
+				if outs[i] == nil {
+					outs[i] = new(wrapperspb.BytesValue)
+				}
+				out := outs[i]
 				cl := &call{method: m, client: i % c.Topo.Clients}
 				idx := len(calls)
 				calls = append(calls, cl)
@@ -378,7 +390,13 @@ func execC01Repeat(t *testing.T, c C01Repeat) (v Verdict) {
 						ctx, cancel = context.WithTimeout(ctx, time.Hour)
 						defer cancel()
 					}
-					cl.reply, cl.err = kit.Invoke(ctx, w.Conn(cl.client), fmt.Sprintf("r%d", cl.method), mkReq(idx))
+					if c.ReuseReply {
+						var b []byte
+						b, cl.err = kit.InvokeInto(ctx, w.Conn(cl.client), fmt.Sprintf("r%d", cl.method), mkReq(idx), out)
+						cl.reply = append([]byte{}, b...)
+					} else {
+						cl.reply, cl.err = kit.Invoke(ctx, w.Conn(cl.client), fmt.Sprintf("r%d", cl.method), mkReq(idx))
+					}
 					cl.done = true
 				}()
 			}
@@ -393,6 +411,9 @@ func execC01Repeat(t *testing.T, c C01Repeat) (v Verdict) {
 	}
 	for idx, cl := range calls {
 		want := append([]byte{byte('A' + cl.method)}, mkReq(idx)...)
+		if c.ReuseReply && idx%3 == 2 {
+			want = []byte{}
+		}
 		switch {
 		case !cl.done:
 			v.failf("call %d (method r%d, the %d-th call on this connection set) never returned", idx, cl.method, idx+1)
